@@ -329,11 +329,12 @@ ORDER = ["enum1", "struct2", "impl2", "struct3", "impl3", "svc", "dev", "struct8
 # splitting plans: which consecutive blocks go to which module file; `mod` goes where the block was
 PLANS = [
     dict(name="enum_to_module", blocks=[(["enum1"], "m")]),
-    dict(name="struct_and_binding", blocks=[(["struct2", "impl2"], "m")], pre=["enum1"]),
+    dict(name="struct_and_binding", blocks=[(["enum1", "struct2", "impl2"], "m")]),
     dict(name="service_and_device", blocks=[(["svc", "dev"], "m")]),
     dict(name="dotted_depth2", blocks=[(["enum1", "struct2", "impl2"], "a.b")]),
-    dict(name="two_modules", blocks=[(["enum1"], "m"), (["struct3", "impl3", "svc"], "x.y")]),
-    dict(name="dotted_then_flat", blocks=[(["enum1"], "a.b"), (["struct3", "impl3"], "m"), (["dev"], "z")]),
+    dict(name="two_modules", blocks=[(["enum1"], "m"), (["impl3", "svc", "dev"], "x.y")]),
+    dict(name="dotted_then_flat", blocks=[(["enum1"], "a.b"), (["svc"], "m"), (["dev"], "z")]),
+    dict(name="dotted_then_dotted", blocks=[(["enum1"], "a.b"), (["impl3", "svc"], "c.d"), (["dev"], "z")]),
     dict(name="binding_alone", blocks=[(["impl2"], "m"), (["impl3"], "n.o")]),
     dict(name="nested", blocks=[(["enum1", "struct2"], "a.b")], nested={"a.b": (["enum1"], "c")}),
     dict(name="depth3", blocks=[(["enum1", "struct2", "impl2", "struct3"], "a.b.c")]),
@@ -468,7 +469,10 @@ def c20_case(args):
                    what=f"split schema differs from the single-file schema: "
                         f"{ {c: (len(getattr(fa, c)), len(getattr(fb, c))) for c in ('structs', 'enums', 'impls', 'services', 'devices')} } "
                         f"(split, single) on plan {plan['name']}")
-        res["vacuity"] = {"ok_paths": sum(1 for k, o, _ in paths if k == "ret" and o[0].is_ok() and o[1].is_ok())}
+        okp = sum(1 for k, o, _ in paths if k == "ret" and o[1].is_ok())
+        res["vacuity"] = {"ok_paths": okp}
+        if okp == 0:
+            res["inconclusive"].append(f"{plan['name']}: vacuous plan - the single-file schema is never accepted")
     except EngineLimit as e:
         res["inconclusive"].append(f"{plan['name']}: engine limit: {e}")
     finish_engine(res, eng)
